@@ -95,6 +95,20 @@ func c13Faults() []faultForm {
 		{"unexpected-token", "{{ 1 2 }}{{-- zzFault --}}", true},
 		{"unexpected-token", "@if(true, zzFault)a@end", true},
 		{"unexpected-token", "{{ zzFault = }}", true},
+		// constructs spread over several lines: the reported line is that of the
+		// offending token itself (the marker stands on its line), not of the token before it
+		{"unexpected-token-own-line", "{{ [1, 2\n\nzzFault] }}", true},
+		{"unexpected-token-own-line", "@if(true\n\n, zzFault)x@end", true},
+		{"unexpected-token-own-line", "@each(x\n\nof zzFault)a@end", true},
+		{"unexpected-token-own-line", "@for(i = 0; i < 3\n\n zzFault++)x@end", true},
+		{"unexpected-token-own-line", "{{ 1 +\n\n}}{{-- zzFault --}}", true},
+		{"unexpected-token-own-line", "{{ {a: 1\n\n zzFault: 2} }}", true},
+		{"unexpected-token-own-line", "{{ (1 + 2\n\n zzFault }}", true},
+		{"unexpected-token-own-line", "@dump(1\n\n zzFault)", true},
+		{"unexpected-token-own-line", "{{ true ? 1\n\n zzFault }}", true},
+		{"unknown-identifier-own-line", "{{ 1 +\n\nzzFault }}", false},
+		{"unknown-function-own-line", "{{ 5.\n\nzzFault() }}", false},
+		{"illegal-character-own-line", "{{ 1 +\n\n# }}{{-- zzFault --}}", true},
 	}
 }
 
